@@ -23,14 +23,14 @@ PROPS["C12"] = dict(
          "stand-alone Token::new() dropped}, sizes 1..3 (and 4); each sequence runs in its own thread with a 3 s hang detector; afterwards the free "
          "units are counted, then all live tokens dropped and the units counted again. c12: 24 (160) whole-server histories on loopback: max_conns 1..4, "
          "2..3x as many concurrent clients with random start delays, each ending in one of {gate+200, gate+500, gate+handler panic, gate+dropped by "
-         "handler, malformed request, abort mid-head, abort mid-upload, keep-alive then close, two requests; the four kinds that the server ends (500, panic, drop, malformed) also with a client that keeps its socket open afterwards}, half of the histories dominated by one "
+         "handler, malformed request, abort mid-head, abort mid-upload, half-close in the middle of an upload the handler answered without reading, keep-alive then close, two requests; the four kinds that the server ends (500, panic, drop, malformed) also with a client that keeps its socket open afterwards}, half of the histories dominated by one "
          "kind; handlers block on a harness gate that records the number of simultaneously entered handlers; gates are held until min(max_conns, gated "
          "clients) are inside, then opened one at a time; after the history max_conns fresh gated clients must all be inside simultaneously within 8 s. "
          "c12e: 2 (5) servers with max_conns 1..4 run under a lowered descriptor limit (prlimit on the harness process): the descriptor table is filled so "
          "that the client's socket takes the last descriptor and accept() fails with EMFILE 1..3 times (the client is starved for 250 ms, the "
          "'too many open files' event is captured), then the descriptors are released: the client must be served and max_conns fresh gated clients "
          "must all be inside simultaneously. Non-trivial = at least one take that had to fail / at least one connection ended abnormally / accept failed.",
-    nontrivial=lambda tag, args, obs: ("O" in obs.split(" ")[0]) if tag == "c12t" else (True if tag == "c12e" else bool(re.search(r"[epdmauEPDM]", args[1]))),
+    nontrivial=lambda tag, args, obs: ("O" in obs.split(" ")[0]) if tag == "c12t" else (True if tag == "c12e" else bool(re.search(r"[epdmauvEPDM]", args[1]))),
     klass=lambda tag, args, obs: ("c12t:size=%s:len=%d" % (args[0], len(args[1]))) if tag == "c12t" else ("c12e:max_conns=%s" % args[0] if tag == "c12e" else "c12:max_conns=%s:clients=%d" % (args[0], len(args[1]))),
     explanation="Model/Server.lean: TokenSet as (size, units in the channel, live tokens); the accept loop as a four-state machine, connection tasks as "
                 "a count, every way a connection can end as one event (its token is dropped). Theorems over all event sequences / API sequences: "
